@@ -27,7 +27,7 @@ import (
 // class name -> concrete representatives (chosen by seed). The class alphabets per language are constants of
 // spec/proto/AllStrings.tla; a name unknown here is a fatal error of the machinery.
 var classBytes = map[string][]string{
-	"sp": {" "}, "tab": {"\t"}, "nl": {"\n", "\r", "\r\n", "\f"}, "quote": {"\""}, "apos": {"'"}, "digit": {"0", "7", "9"},
+	"sp": {" "}, "tab": {"\t"}, "nl": {"\n", "\r", "\f"}, "crlf": {"\r\n"}, "quote": {"\""}, "apos": {"'"}, "digit": {"0", "7", "9"},
 	"hex": {"a", "f", "A", "c"}, "e": {"e", "E"}, "u": {"u", "U"}, "letter": {"z", "g", "Q", "_", "r", "l"}, "dash": {"-"}, "plus": {"+"},
 	"dot": {"."}, "bslash": {"\\"}, "lparen": {"("}, "rparen": {")"}, "lbrack": {"["}, "rbrack": {"]"}, "lbrace": {"{"}, "rbrace": {"}"},
 	"hash": {"#"}, "at": {"@"}, "star": {"*"}, "slash": {"/"}, "lt": {"<"}, "gt": {">"}, "bang": {"!"}, "pipe": {"|"}, "eq": {"="},
